@@ -110,6 +110,123 @@ def justified_unchanged(trace):
     return out
 
 
+import hashlib
+
+
+def canon_real_cache(cj, root, contents):
+    """the decoded cache file of the real run in the canonical form of FB.Wire.showCache"""
+    sha = {hashlib.sha256(c.encode('utf-8', 'surrogateescape')).hexdigest(): c for c in contents}
+
+    def rel(p):
+        if p == root:
+            return ''
+        return p[len(root) + 1:] if p.startswith(root + '/') else p
+
+    def fix_ret(name, v):
+        if name == 'walk' and isinstance(v, list):
+            return [[('<R>' + e[0][len(root):]) if isinstance(e[0], str) and e[0].startswith(root) else e[0], e[1], e[2]]
+                    for e in v]
+        if name == 'read' and isinstance(v, str):
+            return 'sha:' + sha[v] if v in sha else v
+        return v
+
+    def op(o):
+        t = o['type']
+        if t == 'build_file':
+            cr = o['fileComparisonResult']
+            if isinstance(cr, str):
+                cr = 'sha:' + sha[cr] if cr in sha else cr
+            return {'type': t, 'filename': rel(o['filename']), 'cmp': o['fileComparison'], 'func': o['funcName'],
+                    'args': wire.enc(o['args']), 'kwargs': wire.enc(o['kwargs']), 'subs': [op(x) for x in o['suboperations']],
+                    'ret': wire.enc(o['returnValue']), 'cmpRes': wire.enc(cr), 'raised': bool(o.get('raised', False)),
+                    'setupFailed': bool(o.get('setupFailed', False))}
+        if t == 'subbuild':
+            return {'type': t, 'func': o['funcName'], 'args': wire.enc(o['args']), 'kwargs': wire.enc(o['kwargs']),
+                    'subs': [op(x) for x in o['suboperations']], 'ret': wire.enc(o['returnValue']),
+                    'raised': bool(o.get('raised', False)), 'setupFailed': bool(o.get('setupFailed', False))}
+        args = list(o['args'])
+        args[0] = rel(args[0])
+        return {'type': t, 'args': args, 'ret': wire.enc(fix_ret(t, o['returnValue'])), 'exc': o.get('exceptionType')}
+    return {'buildName': cj['buildName'], 'roots': sorted((op(x) for x in cj['rootOperations']), key=lambda x: json.dumps(x, sort_keys=True)),
+            'createdDirs': sorted(rel(d) for d in cj['createdDirs']), 'versions': wire.enc(cj['funcVersions'])}
+
+
+def canon_model_cache(c):
+    def lists(v):
+        # tuples recorded by simple operations become lists in the file
+        if isinstance(v, dict):
+            if 't' in v:
+                return {'l': [lists(x) for x in v['t']]}
+            if 'l' in v:
+                return {'l': [lists(x) for x in v['l']]}
+            if 'd' in v:
+                return {'d': sorted([[k, lists(x)] for k, x in v['d']])}
+        return v
+
+    def op(o):
+        o = dict(o)
+        for k in ('ret', 'args', 'kwargs', 'cmpRes'):
+            if k in o and not (o['type'] not in ('build_file', 'subbuild') and k == 'args'):
+                o[k] = lists(o[k])
+        if 'subs' in o:
+            o['subs'] = [op(x) for x in o['subs']]
+        return o
+    return {'buildName': c['buildName'], 'roots': sorted((op(x) for x in c['roots']), key=lambda x: json.dumps(x, sort_keys=True)),
+            'createdDirs': sorted(c['createdDirs']), 'versions': lists(c['versions'])}
+
+
+def sort_dicts(v):
+    if isinstance(v, dict):
+        if 'd' in v and isinstance(v['d'], list):
+            return {'d': sorted([[k, sort_dicts(x)] for k, x in v['d']], key=lambda kv: json.dumps(kv[0]))}
+        return {k: sort_dicts(x) for k, x in v.items()}
+    if isinstance(v, list):
+        return [sort_dicts(x) for x in v]
+    return v
+
+
+def impl_compare(case, i, st, ro, mo, ds, all_contents):
+    """gate 2: the implementation model (FB.Impl) against the real code, everything observable"""
+    im = mo.get('impl')
+    if im is None:
+        return
+    cache = case['cache']
+    if 'res' in ro and not res_equal(ro['res'], im['res']):
+        ds.append({'cat': 'impl_res', 'step': i, 'detail': {'real': ro['res'], 'impl': im['res']}})
+    a = tree_view(ro['tree'], cache, set()); b = tree_view(im['tree'], cache, set())
+    if a != b:
+        ds.append({'cat': 'impl_tree', 'step': i, 'detail': tree_diff(a, b)})
+    if st[0] == 'build':
+        if [inv_key(x) for x in ro['inv']] != [inv_key(x) for x in im['inv']]:
+            ds.append({'cat': 'impl_inv', 'step': i, 'detail': {'real': ro['inv'][:6], 'impl': im['inv'][:6]}})
+        if ro.get('cache_json') is not None and im.get('cache') is not None:
+            if 'unreadable' in ro['cache_json']:
+                ds.append({'cat': 'impl_cache', 'step': i, 'detail': ro['cache_json']})
+            else:
+                rc = sort_dicts(canon_real_cache(ro['cache_json'], ro['root'], all_contents))
+                mc = sort_dicts(canon_model_cache(im['cache']))
+                if json.dumps(rc, sort_keys=True) != json.dumps(mc, sort_keys=True):
+                    ds.append({'cat': 'impl_cache', 'step': i, 'detail': first_diff(rc, mc)})
+        elif (ro.get('cache_json') is None) != (im.get('cache') is None):
+            ds.append({'cat': 'impl_cache', 'step': i, 'detail': 'cache written on one side only'})
+
+
+def first_diff(a, b, path=''):
+    if type(a) != type(b):
+        return {'at': path, 'real': a, 'impl': b}
+    if isinstance(a, dict):
+        for k in sorted(set(a) | set(b)):
+            if a.get(k) != b.get(k):
+                return first_diff(a.get(k), b.get(k), path + '/' + str(k))
+    if isinstance(a, list):
+        if len(a) != len(b):
+            return {'at': path, 'real_len': len(a), 'impl_len': len(b), 'real': a[:3], 'impl': b[:3]}
+        for j, (x, y) in enumerate(zip(a, b)):
+            if x != y:
+                return first_diff(x, y, path + '/' + str(j))
+    return {'at': path, 'real': a, 'impl': b}
+
+
 def trace_targets(trace):
     out = set()
 
@@ -133,9 +250,13 @@ def analyze(case, real, spec):
     before = real['init']
     last_commit = None      # the last committed build, if nothing happened since
     rec = None              # the model's record of the last committed build (what the cache file stands for)
+    all_contents = set(n[2] for n in real['init'] if n[1] == 'file')
     for i, st in enumerate(case['steps']):
         ro, so = real['steps'][i], spec['steps'][i]
         kind = st[0]
+        all_contents.update(n[2] for n in ro['tree'] if n[1] == 'file')
+        if not so.get('obl'):
+            impl_compare(case, i, st, ro, so, ds, all_contents)
         if kind == 'mut':
             stats['muts'] += 1
             a = tree_view(ro['tree'], cache, targets); b = tree_view(so['tree'], cache, targets)
@@ -186,6 +307,10 @@ def analyze(case, real, spec):
                     ds.append({'cat': 'rollback', 'step': i, 'detail': d})
             else:
                 stats['commits'] += 1
+                # C05: "... since a committed build that did not itself overwrite foreign files at its
+                # target paths": then a recorded existence answer legitimately changes
+                if last_commit is not None and last_commit.get('overwrote_foreign'):
+                    last_commit = None
                 if (last_commit is not None and json.dumps(last_commit['spec']['trace'], sort_keys=True) ==
                         json.dumps(so['trace'], sort_keys=True) and last_commit['spec']['res'] == so['res']
                         and last_commit['versions'] == st[2]):
@@ -201,7 +326,9 @@ def analyze(case, real, spec):
                                      and n[0] not in reexec_targets and bmap[n[0]][3:5] != n[3:5]]
                         if rewritten:
                             ds.append({'cat': 'rewritten', 'step': i, 'detail': rewritten})
-                last_commit = {'spec': so, 'versions': st[2]}
+                bfiles = set(n[0] for n in before if n[1] == 'file')
+                last_commit = {'spec': so, 'versions': st[2],
+                               'overwrote_foreign': bool((trace_targets(so.get('trace', [])) & bfiles) - old_outputs)}
             managed = {cache} | old_outputs | trace_targets(so.get('trace', []))
         elif kind == 'clean':
             stats['cleans'] += 1
